@@ -27,6 +27,7 @@ def printEscaped (s : Bytes) : Bytes := s.flatMap escByte
 structure St where
   currTest  : Option Bytes := none
   currGroup : Bytes := []
+  veryVerbose : Bool := false          -- `verbose_ == level_veryVerbose` (set before the run, -vv)
 deriving Repr, DecidableEq, Inhabited
 
 def testStartedOut (t : TestInfo) : Bytes :=
@@ -74,11 +75,16 @@ def step (s : St) : Ev → St × List UInt8
   | .testStarted t => ({ s with currTest := some t.name }, testStartedOut t)
   | .print text => (s, text)
   | .failure f => (s, failureOut f)
+  | .veryVerbose text => (s, if s.veryVerbose then text else [])      -- `TestOutput::printVeryVerbose`
   | .testEnded ms _ => (s, testEndedOut s.currTest ms)
   | .groupEnded _ => (s, groupEndedOut s.currGroup)
   | .testsEnded sm => (s, summaryOut sm)
 
-/-- the captured stream of a whole run -/
-def stream (evs : List Ev) : Bytes := (foldEvents step {} evs).2
+/-- the captured stream of a whole run; `vv` = very verbose mode on -/
+def streamV (vv : Bool) (evs : List Ev) : Bytes := (foldEvents step { veryVerbose := vv } evs).2
+
+/-- the captured stream of a whole run in the default mode (`-v` changes nothing here: the overridden
+    `printCurrentTestStarted/Ended` do not look at the verbosity) -/
+def stream (evs : List Ev) : Bytes := streamV false evs
 
 end TeamCity
